@@ -41,6 +41,9 @@ func randomiseConfig(r *rand.Rand, sp *saml2.SAMLServiceProvider, o *OutCfg) {
 	if r.IntN(6) == 0 {
 		sp.ServiceProviderIssuer = "" // falls back to the IdP issuer
 		sp.IdentityProviderIssuer = o.draw(r, IdPIss, false)
+		if r.IntN(4) == 0 {
+			sp.IdentityProviderIssuer = "" // neither configured: an empty Issuer element, still first
+		}
 	}
 	sp.IdentityProviderSSOURL = o.draw(r, IdPSSO, true)
 	sp.IdentityProviderSLOURL = o.draw(r, IdPSLO, true)
